@@ -33,6 +33,7 @@ static std::map<std::string, long long> g_budget;     // remaining bytes the "di
 static std::vector<std::string> g_trace;
 static long g_ops = 0, g_crash_at = -1;
 static long g_writes = 0, g_fail_once = -1;     // FAILONCE k: the k-th data write is rejected once with ENOSPC
+static long g_fail_from = -1;                   // FAILFROM k: every data write from the k-th on is rejected with ENOSPC (persistent failure)
 static long g_short_once = -1, g_short_n = 0;   // SHORTONCE k n: the k-th data write accepts only n bytes (a short count), once; later writes work
 static bool g_in_hook = false;
 
@@ -86,6 +87,7 @@ extern "C" ssize_t write(int fd, const void* buf, size_t len) {
     if (it == g_fdpath.end() || g_in_hook) return r(fd, buf, len);
     op_point();
     if (++g_writes == g_fail_once) { ev("write " + it->second + " 0/" + std::to_string(len) + " ENOSPC-once"); errno = ENOSPC; return -1; }
+    if (g_fail_from > 0 && g_writes >= g_fail_from) { ev("write " + it->second + " 0/" + std::to_string(len) + " ENOSPC-from"); errno = ENOSPC; return -1; }
     size_t allowed; if (budgeted(fd, len, allowed) < 0) { ev("write " + it->second + " 0/" + std::to_string(len) + " ENOSPC"); return -1; }
     if (g_writes == g_short_once && (size_t)g_short_n < allowed) allowed = g_short_n;
     ssize_t n = r(fd, buf, allowed);
@@ -100,6 +102,7 @@ extern "C" ssize_t writev(int fd, const struct iovec* iov, int cnt) {
     if (it == g_fdpath.end() || g_in_hook) return r(fd, all.data(), all.size());
     op_point();
     if (++g_writes == g_fail_once) { ev("write " + it->second + " 0/" + std::to_string(all.size()) + " ENOSPC-once"); errno = ENOSPC; return -1; }
+    if (g_fail_from > 0 && g_writes >= g_fail_from) { ev("write " + it->second + " 0/" + std::to_string(all.size()) + " ENOSPC-from"); errno = ENOSPC; return -1; }
     size_t allowed; if (budgeted(fd, all.size(), allowed) < 0) { ev("write " + it->second + " 0/" + std::to_string(all.size()) + " ENOSPC"); return -1; }
     if (g_writes == g_short_once && (size_t)g_short_n < allowed) allowed = g_short_n;
     ssize_t n = r(fd, all.data(), allowed);
@@ -165,6 +168,7 @@ int main() {
             if (t[0] == "CASE") { OUT("CASE %s", t.size() > 1 ? t[1].c_str() : ""); }
             else if (t[0] == "CRASHAT") { g_crash_at = atol(t[1].c_str()); OUT("ok"); }
             else if (t[0] == "FAILONCE") { g_fail_once = atol(t[1].c_str()); OUT("ok"); }
+            else if (t[0] == "FAILFROM") { g_fail_from = atol(t[1].c_str()); OUT("ok"); }
             else if (t[0] == "SHORTONCE") { g_short_once = atol(t[1].c_str()); g_short_n = atol(t[2].c_str()); OUT("ok"); }
             else if (t[0] == "PRE") {            // a file that exists before: PRE <relpath> <hex>
                 g_in_hook = true; { FILE* f = fopen((g_dir + "/" + t[1]).c_str(), "wb"); std::string s = unhex(t[2]); fwrite(s.data(), 1, s.size(), f); fclose(f); } g_in_hook = false; OUT("ok");
